@@ -30,8 +30,11 @@ import (
 type domSpec struct {
 	LenDom   map[string][2]int64 // value path (parameter or parameter.field) -> inclusive interval of its length
 	NonNil   map[string]bool     // value paths the domain guarantees non-nil
+	IntDom   map[string][2]int64 // integer parameter -> inclusive interval of its value
+	CallVals map[string][]int64  // method name -> the values its result takes on the domain (e.g. Type() of the one payload kind in scope)
 	LookupOK map[string]string   // callee -> why a nil result is outside the domain
-	EnvErr   map[string]string   // callee -> why its error is outside the domain
+	EnvErr   map[string]string   // callee (full name, or "method:<name>") -> why its failure is outside the domain or decided elsewhere
+	Rel      func(f *FA) []Fact  // further (relational) facts of the domain, built on the function's own values
 	// ExactLenField: the domain guarantees len(parameter i) == receiver.<field> (justified by the named rule)
 	ExactLenParam int
 	ExactLenField string
@@ -44,6 +47,18 @@ var domExternalNeverFails = map[string]string{
 	"crypto/aes.NewCipher":   "fails only for key sizes other than 16, 24, 32; the size guard before it pins len(key) to the descriptor's key length, which the registry-length rule pins to the RFC table",
 	"iface:io.Writer.Write":  "hash.Hash embeds io.Writer; its Write never returns an error",
 	"(*crypto/hmac.hmac).Write": "hash Write never returns an error",
+}
+
+// domExternalEnv: external callees that fail only when the environment (the random source) fails.
+var domExternalEnv = map[string]string{
+	"io.ReadFull":      "fails only when the reader fails or ends; the readers reached are crypto/rand (C10 IV rule); the random source is assumed to work",
+	"crypto/rand.Read": "fails only when the system random source fails",
+	"crypto/rand.Int":  "fails only when the system random source fails",
+}
+
+// domBoolTrueOnDomain: external predicates that hold for every in-domain input.
+var domBoolTrueOnDomain = map[string]string{
+	"crypto/hmac.Equal": "a genuine message carries the checksum its sender computed over the same octets under the same key (decided by the mac-span and key-direction rules)",
 }
 
 type domAn struct {
@@ -64,6 +79,31 @@ func (d *domAn) specOf(fn *ssa.Function) *domSpec {
 		return s
 	}
 	return &domSpec{ExactLenParam: -1}
+}
+
+func (s *domSpec) sig() string {
+	var parts []string
+	for k, v := range s.LenDom {
+		parts = append(parts, fmt.Sprintf("len(%s)=%d..%d", k, v[0], v[1]))
+	}
+	for k, v := range s.IntDom {
+		parts = append(parts, fmt.Sprintf("%s=%d..%d", k, v[0], v[1]))
+	}
+	for k := range s.NonNil {
+		parts = append(parts, k+"!=nil")
+	}
+	sort.Strings(parts)
+	return strings.Join(parts, ",")
+}
+
+func (s *domSpec) envWhy(m *ssa.Function) (string, bool) {
+	if why, ok := s.EnvErr[m.String()]; ok {
+		return why, true
+	}
+	if why, ok := s.EnvErr["method:"+m.Name()]; ok && m.Signature.Recv() != nil {
+		return why, true
+	}
+	return "", false
 }
 
 // valuePath names a value by parameter and field path ("ikesaKey.EncrInfo"), or "".
@@ -154,6 +194,12 @@ func (d *domAn) domFacts(f *FA, spec *domSpec) []Fact {
 	}
 	for _, p := range fn.Params {
 		add(p)
+		if iv, ok := spec.IntDom[p.Name()]; ok {
+			if _, _, isInt := f.typeRange(p.Type()); isInt {
+				l := f.LFOf(p)
+				out = append(out, Fact{L: l.add(konst(iv[0]), -1)}, Fact{L: konst(iv[1]).add(l, -1)})
+			}
+		}
 	}
 	for _, b := range fn.Blocks {
 		for _, ins := range b.Instrs {
@@ -178,6 +224,9 @@ func (d *domAn) domFacts(f *FA, spec *domSpec) []Fact {
 			}
 		}
 	}
+	if spec.Rel != nil {
+		out = append(out, spec.Rel(f)...)
+	}
 	return out
 }
 
@@ -192,7 +241,161 @@ func factRefuted(f *FA, g Fact, facts []Fact) bool {
 	return ok
 }
 
-func (d *domAn) guardRefuted(f *FA, spec *domSpec, facts []Fact, p *ssa.BasicBlock, succ int) (bool, string) {
+// calleeSpec derives the domain of a callee at a call site: the callee's own table entry, plus what the
+// call site fixes (constant integer arguments, byte-slice arguments of constant or in-domain length,
+// arguments the caller's domain guarantees non-nil).
+func (d *domAn) calleeSpec(x *domFn, call *ssa.Call, m *ssa.Function) *domSpec {
+	base := d.specOf(m)
+	ns := &domSpec{ExactLenParam: base.ExactLenParam, ExactLenField: base.ExactLenField, ExactLenWhy: base.ExactLenWhy,
+		LenDom: map[string][2]int64{}, IntDom: map[string][2]int64{}, NonNil: map[string]bool{}, CallVals: base.CallVals, LookupOK: base.LookupOK, EnvErr: base.EnvErr, Rel: base.Rel}
+	for k, v := range base.LenDom {
+		ns.LenDom[k] = v
+	}
+	for k, v := range base.IntDom {
+		ns.IntDom[k] = v
+	}
+	for k, v := range base.NonNil {
+		ns.NonNil[k] = v
+	}
+	args := call.Call.Args
+	params := m.Params
+	if call.Call.IsInvoke() {
+		if len(params) == 0 {
+			return ns
+		}
+		params = params[1:]
+	}
+	facts := append(append([]Fact{}, x.facts...), x.f.FactsAt(call.Block())...)
+	env := x.f.refine(facts)
+	for i, a := range args {
+		if i >= len(params) {
+			break
+		}
+		pn := params[i].Name()
+		if _, _, isInt := x.f.typeRange(a.Type()); isInt {
+			lo, hi := x.f.bounds(x.f.LFOf(a), env)
+			if tlo, thi, ok := x.f.typeRange(a.Type()); ok && (lo > tlo || hi < thi) {
+				if _, had := ns.IntDom[pn]; !had {
+					ns.IntDom[pn] = [2]int64{lo, hi}
+				}
+			}
+			continue
+		}
+		if _, ok := a.Type().Underlying().(*types.Slice); ok {
+			lo, hi := x.f.bounds(x.f.SliceLen(a), env)
+			if (lo > 0 || hi < x.f.maxLen) && hi < INF {
+				if _, had := ns.LenDom[pn]; !had {
+					ns.LenDom[pn] = [2]int64{lo, hi}
+				}
+			} else if lo > 0 {
+				if _, had := ns.LenDom[pn]; !had {
+					ns.LenDom[pn] = [2]int64{lo, INF}
+				}
+			}
+			continue
+		}
+		if p := valuePath(x.f.Fn, a); p != "" && x.spec.NonNil[p] {
+			ns.NonNil[pn] = true
+			// fields of a parameter the caller's domain guarantees are guaranteed in the callee as well
+			for k := range x.spec.NonNil {
+				if strings.HasPrefix(k, p+".") {
+					ns.NonNil[pn+strings.TrimPrefix(k, p)] = true
+				}
+			}
+		}
+	}
+	if !call.Call.IsInvoke() && m.Signature.Recv() != nil && len(args) > 0 {
+		// receiver is args[0] for static method calls: handled by the loop above through params[0]
+	}
+	return ns
+}
+
+// calleesCannotFail: the error (kind "error") / nil result (kind "nil", result idx) of this call is
+// impossible on the domain.
+func (d *domAn) calleesCannotFail(x *domFn, call *ssa.Call, kind string, idx int) (bool, string) {
+	cs := d.c.CalleesAt(call)
+	if cs.Dynamic {
+		return false, "a dynamic call"
+	}
+	var whys []string
+	for _, e := range cs.External {
+		if kind == "nil" {
+			return false, "nil result of external callee " + e
+		}
+		if why, ok := domExternalNeverFails[e]; ok {
+			whys = append(whys, e+": "+why)
+			continue
+		}
+		if why, ok := domExternalEnv[e]; ok {
+			whys = append(whys, e+": "+why)
+			continue
+		}
+		return false, "error of external callee " + e + " (not in the never-fails table)"
+	}
+	for _, m := range cs.Mod {
+		if kind == "nil" {
+			if why, ok := x.spec.LookupOK[m.String()]; ok {
+				whys = append(whys, why)
+				continue
+			}
+		}
+		if why, ok := x.spec.envWhy(m); ok {
+			whys = append(whys, d.c.FuncName(m)+": "+why)
+			continue
+		}
+		vd := d.failureUnreachable(m, d.calleeSpec(x, call, m), kind, idx)
+		if !vd.ok {
+			return false, "callee " + d.c.FuncName(m) + " can fail: " + vd.why
+		}
+		whys = append(whys, d.c.FuncName(m)+" has no reachable failure exit")
+	}
+	if len(whys) == 0 {
+		return false, "callee does not resolve"
+	}
+	return true, strings.Join(whys, "; ")
+}
+
+// errAlwaysNil: the error value v is nil for every in-domain input (v is nil, wraps such a value, or is
+// the result of a call that cannot fail on the domain).
+func (d *domAn) errAlwaysNil(x *domFn, v ssa.Value, depth int) (bool, string) {
+	if isNilConst(v) {
+		return true, "nil"
+	}
+	if depth > 4 {
+		return false, ""
+	}
+	if call, ok := v.(*ssa.Call); ok {
+		if cal := call.Call.StaticCallee(); cal != nil {
+			switch cal.String() {
+			case "github.com/pkg/errors.Wrapf", "github.com/pkg/errors.Wrap", "github.com/pkg/errors.WithMessage", "github.com/pkg/errors.WithMessagef", "github.com/pkg/errors.WithStack":
+				return d.errAlwaysNil(x, call.Call.Args[0], depth+1)
+			case "github.com/pkg/errors.Errorf", "github.com/pkg/errors.New", "errors.New", "fmt.Errorf":
+				return false, ""
+			}
+		}
+	}
+	if call := callOf(v); call != nil && isErrorType(v.Type()) {
+		return d.calleesCannotFail(x, call, "error", -1)
+	}
+	if phi, ok := v.(*ssa.Phi); ok {
+		var whys []string
+		for i, e := range phi.Edges {
+			if ok, _ := x.edgeInfeasible(phi.Block().Preds[i], phi.Block()); ok {
+				continue
+			}
+			ok, why := d.errAlwaysNil(x, e, depth+1)
+			if !ok {
+				return false, ""
+			}
+			whys = appendUniq(whys, why)
+		}
+		return true, strings.Join(whys, "; ")
+	}
+	return false, ""
+}
+
+func (d *domAn) guardRefuted(x *domFn, p *ssa.BasicBlock, succ int) (bool, string) {
+	f, spec, facts := x.f, x.spec, x.facts
 	iff, ok := p.Instrs[len(p.Instrs)-1].(*ssa.If)
 	if !ok || p.Succs[0] == p.Succs[1] {
 		return false, ""
@@ -207,21 +410,32 @@ func (d *domAn) guardRefuted(f *FA, spec *domSpec, facts []Fact, p *ssa.BasicBlo
 		cond = u.X
 		taken = !taken
 	}
+	if call, ok := cond.(*ssa.Call); ok {
+		if cal := call.Call.StaticCallee(); cal != nil {
+			if why, ok := domBoolTrueOnDomain[cal.String()]; ok {
+				if !taken {
+					return true, cal.String() + " holds on the domain: " + why
+				}
+				return false, cal.String() + " holds on the domain"
+			}
+		}
+		return false, "branch on the result of " + call.Call.Value.String()
+	}
 	bo, ok := cond.(*ssa.BinOp)
 	if !ok {
 		return false, "branch on " + cond.String()
 	}
 	fn := f.Fn
+	text := d.c.SrcExpr(bo)
+	if text == "" {
+		text = bo.String()
+	}
 	if (bo.Op == token.EQL || bo.Op == token.NEQ) && (isNilConst(bo.X) || isNilConst(bo.Y)) {
 		v := bo.X
 		if isNilConst(v) {
 			v = bo.Y
 		}
 		nilEdge := (bo.Op == token.EQL) == taken
-		text := d.c.SrcExpr(bo)
-		if text == "" {
-			text = bo.String()
-		}
 		if nilEdge {
 			if isErrorType(v.Type()) {
 				return false, "the no-error edge of " + text
@@ -237,27 +451,15 @@ func (d *domAn) guardRefuted(f *FA, spec *domSpec, facts []Fact, p *ssa.BasicBlo
 				src = s
 			}
 			if call := callOf(src); call != nil {
-				cs := d.c.CalleesAt(call)
-				if cs.Dynamic || len(cs.External) > 0 || len(cs.Mod) == 0 {
-					return false, "nil result of an unresolved callee"
+				idx := 0
+				if ex, ok := src.(*ssa.Extract); ok {
+					idx = ex.Index
 				}
-				var whys []string
-				for _, m := range cs.Mod {
-					if why, ok := spec.LookupOK[m.String()]; ok {
-						whys = append(whys, why)
-						continue
-					}
-					idx := 0
-					if ex, ok := src.(*ssa.Extract); ok {
-						idx = ex.Index
-					}
-					vd := d.failureUnreachable(m, "nil", idx)
-					if !vd.ok {
-						return false, "nil result of " + d.c.FuncName(m) + " is reachable: " + vd.why
-					}
-					whys = append(whys, d.c.FuncName(m)+" returns nil on no in-domain path")
+				ok, why := d.calleesCannotFail(x, call, "nil", idx)
+				if !ok {
+					return false, "nil result is reachable: " + why
 				}
-				return true, strings.Join(whys, "; ")
+				return true, why
 			}
 			return false, "nil test of " + text
 		}
@@ -265,61 +467,71 @@ func (d *domAn) guardRefuted(f *FA, spec *domSpec, facts []Fact, p *ssa.BasicBlo
 		if !isErrorType(v.Type()) {
 			return false, "the non-nil edge of " + text
 		}
-		call := callOf(v)
-		if call == nil {
-			return false, "error value not produced by a call"
-		}
-		cs := d.c.CalleesAt(call)
-		if cs.Dynamic {
-			return false, "error of a dynamic call"
-		}
-		var whys []string
-		for _, e := range cs.External {
-			why, ok := domExternalNeverFails[e]
-			if !ok {
-				return false, "error of external callee " + e + " (not in the never-fails table)"
+		ok, why := d.errAlwaysNil(x, v, 0)
+		if !ok {
+			if why == "" {
+				why = "the error value is not shown to be nil on the domain"
 			}
-			whys = append(whys, e+": "+why)
+			return false, why
 		}
-		for _, m := range cs.Mod {
-			if why, ok := spec.EnvErr[m.String()]; ok {
-				whys = append(whys, d.c.FuncName(m)+": "+why)
+		return true, why
+	}
+	// comparison of a method result the domain pins (e.g. Type() of the only payload kind in scope)
+	if bo.Op == token.EQL || bo.Op == token.NEQ {
+		for _, pr := range [][2]ssa.Value{{bo.X, bo.Y}, {bo.Y, bo.X}} {
+			call, ok := pr[0].(*ssa.Call)
+			k, ok2 := pr[1].(*ssa.Const)
+			if !ok || !ok2 || k.Value == nil {
 				continue
 			}
-			vd := d.failureUnreachable(m, "error", -1)
-			if !vd.ok {
-				return false, "callee " + d.c.FuncName(m) + " can fail: " + vd.why
+			name := ""
+			if call.Call.IsInvoke() {
+				name = call.Call.Method.Name()
+			} else if cal := call.Call.StaticCallee(); cal != nil {
+				name = cal.Name()
 			}
-			whys = append(whys, d.c.FuncName(m)+" has no reachable failure exit")
+			vals, ok := spec.CallVals[name]
+			if !ok {
+				continue
+			}
+			kv, isInt := constInt64(k.Value)
+			if !isInt {
+				continue
+			}
+			in := false
+			for _, v := range vals {
+				if v == kv {
+					in = true
+				}
+			}
+			eqEdge := (bo.Op == token.EQL) == taken
+			if eqEdge && !in {
+				return true, fmt.Sprintf("%s() is never %d on the domain", name, kv)
+			}
+			if !eqEdge && in && len(vals) == 1 {
+				return true, fmt.Sprintf("%s() is always %d on the domain", name, kv)
+			}
+			return false, "`" + text + "` is not decided by the domain"
 		}
-		if len(whys) == 0 {
-			return false, "callee does not resolve"
-		}
-		return true, strings.Join(whys, "; ")
 	}
 	// integer comparison
 	var gs []Fact
 	f.condFacts(iff.Cond, succ == 0, &gs)
 	if len(gs) == 0 {
-		return false, "branch condition not linear"
+		return false, "branch condition `" + text + "` is not linear"
 	}
 	all := append(append([]Fact{}, facts...), f.FactsAt(p)...)
+	if ok, _ := f.Prove(konst(-1), all); ok {
+		return true, "the test `" + text + "` is itself unreachable on the domain (its dominating guards contradict the domain)"
+	}
 	for _, g := range gs {
 		if factRefuted(f, g, all) {
-			text := d.c.SrcExpr(bo)
-			if text == "" {
-				text = bo.String()
-			}
 			neg := "false"
 			if succ != 0 {
 				neg = "true"
 			}
 			return true, fmt.Sprintf("%s is always %s on the domain", text, neg)
 		}
-	}
-	text := d.c.SrcExpr(bo)
-	if text == "" {
-		text = bo.String()
 	}
 	if succ == 0 {
 		return false, "`" + text + "` can hold on the domain"
@@ -342,7 +554,7 @@ func (x *domFn) edgeInfeasible(p *ssa.BasicBlock, b *ssa.BasicBlock) (bool, stri
 		if s != b {
 			continue
 		}
-		if ok, why := x.d.guardRefuted(x.f, x.spec, x.facts, p, i); ok {
+		if ok, why := x.d.guardRefuted(x, p, i); ok {
 			return true, why
 		} else if firstWhy == "" {
 			firstWhy = why
@@ -360,6 +572,9 @@ func (x *domFn) blockInfeasible(b *ssa.BasicBlock) (bool, string) {
 	if v, ok := x.memo[b]; ok {
 		return v.ok, v.why
 	}
+	if x.f.Dead[b] {
+		return true, "closed world: the block is dead"
+	}
 	if b.Index == 0 || len(b.Preds) == 0 {
 		return false, "reachable from the entry without a refuted guard"
 	}
@@ -372,7 +587,9 @@ func (x *domFn) blockInfeasible(b *ssa.BasicBlock) (bool, string) {
 	for _, p := range b.Preds {
 		ok, why := x.edgeInfeasible(p, b)
 		if !ok {
-			x.memo[b] = &domVerdict{false, why}
+			if len(x.open) == 1 {
+				x.memo[b] = &domVerdict{false, why}
+			}
 			return false, why
 		}
 		if why != "" {
@@ -380,7 +597,9 @@ func (x *domFn) blockInfeasible(b *ssa.BasicBlock) (bool, string) {
 		}
 	}
 	v := &domVerdict{true, strings.Join(whys, "; ")}
-	x.memo[b] = v
+	if len(x.open) == 1 {
+		x.memo[b] = v
+	}
 	return v.ok, v.why
 }
 
@@ -390,11 +609,10 @@ type domExit struct {
 	Why      string
 }
 
-// failureExits classifies every failure exit of fn. kind "error": a possibly non-nil error result;
-// kind "nil": result idx is the nil constant.
-func (d *domAn) failureExits(fn *ssa.Function, kind string, idx int) []domExit {
+// failureExits classifies every failure exit of fn under spec. kind "error": a possibly non-nil error
+// result; kind "nil": result idx is the nil constant.
+func (d *domAn) failureExits(fn *ssa.Function, spec *domSpec, kind string, idx int) []domExit {
 	f := d.c.NewFA(fn)
-	spec := d.specOf(fn)
 	x := &domFn{d: d, f: f, spec: spec, facts: d.domFacts(f, spec), memo: map[*ssa.BasicBlock]*domVerdict{}, open: map[*ssa.BasicBlock]bool{}}
 	var out []domExit
 	seen := map[string]int{}
@@ -444,6 +662,12 @@ func (d *domAn) failureExits(fn *ssa.Function, kind string, idx int) []domExit {
 			} else {
 				ok, why = x.blockInfeasible(b)
 			}
+			if !ok && kind == "error" {
+				// an error that is passed on without a test (return wrap(err)): harmless when err is always nil
+				if nilOK, nwhy := d.errAlwaysNil(x, cd.v, 0); nilOK {
+					ok, why = true, "the returned error is always nil on the domain: "+nwhy
+				}
+			}
 			key := d.c.FuncName(fn) + ": " + d.exitName(cd.v, kind)
 			seen[key]++
 			if seen[key] > 1 {
@@ -476,8 +700,8 @@ func (d *domAn) exitName(v ssa.Value, kind string) string {
 	return "error exit " + v.Name()
 }
 
-func (d *domAn) failureUnreachable(fn *ssa.Function, kind string, idx int) domVerdict {
-	key := fmt.Sprintf("%s|%s|%d", fn.String(), kind, idx)
+func (d *domAn) failureUnreachable(fn *ssa.Function, spec *domSpec, kind string, idx int) domVerdict {
+	key := fmt.Sprintf("%s|%s|%d|%s", fn.String(), kind, idx, spec.sig())
 	if v, ok := d.memo[key]; ok {
 		return v
 	}
@@ -489,50 +713,79 @@ func (d *domAn) failureUnreachable(fn *ssa.Function, kind string, idx int) domVe
 	}
 	d.stack[key] = true
 	defer delete(d.stack, key)
-	exits := d.failureExits(fn, kind, idx)
+	exits := d.failureExits(fn, spec, kind, idx)
 	v := domVerdict{ok: true}
-	var parts []string
 	for _, e := range exits {
 		if !e.OK {
 			v = domVerdict{false, e.Key + " at " + e.Pos + ": " + e.Why}
 			break
 		}
-		parts = append(parts, e.Key)
 	}
 	if v.ok {
-		sort.Strings(parts)
 		v.why = fmt.Sprintf("%d failure exit(s), all unreachable", len(exits))
-		d.calls = appendUniq(d.calls, d.c.FuncName(fn)+": "+v.why)
+		ctx := spec.sig()
+		if ctx != "" {
+			ctx = " [" + ctx + "]"
+		}
+		d.calls = appendUniq(d.calls, d.c.FuncName(fn)+": "+v.why+ctx)
 	}
 	d.memo[key] = v
 	return v
 }
 
+// domRoot is one root of a totality rule: a function and the domain instance it is analysed under.
+type domRoot struct {
+	Fn    *ssa.Function
+	Spec  *domSpec // nil: the table entry of Fn
+	Label string   // distinguishes several instances of one function
+}
+
 // domainTotalRule reports one obligation per failure exit of each root.
 func (c *Ctx) domainTotalRule(r *Report, rule, doc string, floor int, specs map[*ssa.Function]*domSpec, roots []*ssa.Function) {
+	var rs []domRoot
+	for _, fn := range roots {
+		rs = append(rs, domRoot{Fn: fn})
+	}
+	c.domainTotalRoots(r, rule, doc, floor, specs, rs)
+}
+
+func (c *Ctx) domainTotalRoots(r *Report, rule, doc string, floor int, specs map[*ssa.Function]*domSpec, roots []domRoot) {
 	r.Rule(rule, doc, floor)
 	d := &domAn{c: c, specs: specs, memo: map[string]domVerdict{}, stack: map[string]bool{}}
-	for _, fn := range roots {
+	for _, rt := range roots {
+		fn := rt.Fn
 		if fn == nil {
-			r.undecided(rule, "anchor", "-", "a root of the totality rule does not resolve")
+			r.undecided(rule, "anchor "+rt.Label, "-", "a root of the totality rule does not resolve")
 			continue
 		}
 		r.Func(c.FuncName(fn))
-		exits := d.failureExits(fn, "error", -1)
+		spec := rt.Spec
+		if spec == nil {
+			spec = d.specOf(fn)
+		}
+		exits := d.failureExits(fn, spec, "error", -1)
 		if len(exits) == 0 {
 			r.undecided(rule, c.FuncName(fn)+": failure exits", c.Pos(fn.Pos()), "no error exit found; the rule matched nothing")
 		}
 		for _, e := range exits {
+			key := e.Key
+			if rt.Label != "" {
+				key = "[" + rt.Label + "] " + key
+			}
 			if e.OK {
-				r.ok(rule, e.Key, e.Pos, "unreachable on the domain: "+e.Why, true)
+				r.ok(rule, key, e.Pos, "unreachable on the domain: "+e.Why, true)
 			} else {
-				r.bad(rule, e.Key, e.Pos, "an in-domain input can take this failure exit: "+e.Why)
+				r.bad(rule, key, e.Pos, "an in-domain input can take this failure exit: "+e.Why)
 			}
 		}
 	}
 	sort.Strings(d.calls)
 	for _, s := range d.calls {
-		r.ok(rule, "callee summary "+s, "-", "every failure exit of the callee is refuted the same way", true)
+		key, ctx := s, ""
+		if i := strings.Index(s, ": "); i > 0 {
+			key, ctx = s[:i], s[i+2:]
+		}
+		r.ok(rule, "callee summary "+key, "-", "every failure exit of the callee is refuted the same way: "+ctx, true)
 	}
 }
 
@@ -636,4 +889,137 @@ func (c *Ctx) c08Totality(r *Report, prefix string) {
 	c.domainTotalRule(r, prefix+"total-on-domain",
 		"every failure exit of GenerateKeyForChildSA (and of PrfPlus behind its nil test) is unreachable for any nonce string (including the empty one), with or without an integrity transform, on an IKE SA that holds SK_d: on each path to it a branch is refuted by the domain",
 		6, specs, []*ssa.Function{gen})
+}
+
+
+// ---- protect / unprotect (C01, C06) ----
+
+// protectTotality: on the domain of C01/C06 (an SA with all key objects, a message of the encodable
+// domain, a genuine protected datagram on the receive side) no failure exit of the protect and unprotect
+// paths is reachable. Failures of the codec (decided by C03/C05), of AES-CBC on genuine ciphertext (C10)
+// and of the random source are outside this rule; the checksum comparison holds by the mac-span and
+// key-direction rules. What remains - and is decided here - are the functions' own guards: presence
+// tests, length tests (by linear arithmetic over the shape the sender produces: the SK body is
+// IV(16) | 16k cipher octets, k >= 1 | checksum), and tests of message fields.
+func (c *Ctx) protectTotality(r *Report, prefix string) {
+	enc := c.Func("", "encryptMsg")
+	dec := c.Func("", "decryptMsg")
+	ee := c.Func("", "EncodeEncrypt")
+	dd := c.Func("", "DecodeDecrypt")
+	keys := []string{"IntegInfo", "EncrInfo", "Integ_i", "Integ_r", "Encr_i", "Encr_r", "PrfInfo"}
+	nonNil := func(names ...string) map[string]bool {
+		m := map[string]bool{}
+		for _, n := range names {
+			m[n] = true
+		}
+		for _, k := range keys {
+			m["ikesaKey."+k] = true
+		}
+		return m
+	}
+	codec := map[string]string{
+		"method:Encode":        "messages of the encodable domain encode (decided by the codec properties C03/C05)",
+		"method:Decode":        "the octets are a genuine encoding, which decodes (C03/C05)",
+		"method:DecodePayload": "the octets are a genuine encoding, which decodes (C03/C05)",
+		"method:Decrypt":       "the ciphertext is a genuine AES-CBC encryption under the same key (Decrypt after Encrypt is decided by C10's shape rules)",
+		"method:Encrypt":       "fails only when the random source fails (C10 IV / padding rules)",
+	}
+	specs := map[*ssa.Function]*domSpec{}
+	if enc != nil {
+		specs[enc] = &domSpec{ExactLenParam: -1, NonNil: nonNil("ikeMsg", "ikesaKey"), EnvErr: codec}
+	}
+	if ee != nil {
+		specs[ee] = &domSpec{ExactLenParam: -1, NonNil: nonNil("ikeMsg", "ikesaKey"), EnvErr: codec}
+	}
+	recvRel := func(f *FA) []Fact {
+		// len(EncryptedData) - checksumLength >= 32 (IV and at least one cipher block), for every load of the field
+		var out []Fact
+		var cs []LF
+		for _, b := range f.Fn.Blocks {
+			for _, ins := range b.Instrs {
+				if call, ok := ins.(*ssa.Call); ok && call.Call.IsInvoke() && call.Call.Method.Name() == "GetOutputLength" {
+					cs = append(cs, f.LFOf(call))
+				}
+			}
+		}
+		for _, b := range f.Fn.Blocks {
+			for _, ins := range b.Instrs {
+				v, ok := ins.(ssa.Value)
+				if !ok {
+					continue
+				}
+				if _, fld, ok := fieldLoad(v); ok && fld == "EncryptedData" {
+					for _, k := range cs {
+						out = append(out, Fact{L: f.SliceLen(v).add(k, -1).add(konst(32), -1)})
+					}
+				}
+			}
+		}
+		for _, p := range f.Fn.Params {
+			if p.Name() == "msg" {
+				for _, k := range cs {
+					// header 28 + SK header 4 + IV 16 + one block 16 + checksum
+					out = append(out, Fact{L: f.SliceLen(p).add(k, -1).add(konst(64), -1)})
+				}
+			}
+		}
+		return out
+	}
+	if dec != nil {
+		specs[dec] = &domSpec{ExactLenParam: -1, NonNil: nonNil("ikeMsg", "ikesaKey", "msg"), EnvErr: codec,
+			CallVals: map[string][]int64{"Type": {46}}, Rel: recvRel, LenDom: map[string][2]int64{"msg": {64, INF}}}
+	}
+	if dd != nil {
+		specs[dd] = &domSpec{ExactLenParam: -1, NonNil: nonNil("ikesaKey", "msg"), EnvErr: codec, LenDom: map[string][2]int64{"msg": {64, INF}}}
+	}
+	for _, n := range []string{"verifyIntegrity", "calculateIntegrity", "encryptPayload", "decryptPayload"} {
+		if fn := c.Func("", n); fn != nil {
+			specs[fn] = &domSpec{ExactLenParam: -1, NonNil: nonNil("ikesaKey"), EnvErr: codec}
+		}
+	}
+	c.domainTotalRule(r, prefix+"total-on-domain",
+		"no failure exit of EncodeEncrypt / encryptMsg / DecodeDecrypt / decryptMsg (and, through their error tests, of verifyIntegrity, calculateIntegrity, encryptPayload, decryptPayload) is reachable for an SA holding all key objects, a message of the encodable domain and, on reception, a genuine protected datagram (SK body = IV | >= 1 cipher block | checksum): each is behind a presence test, a length test refuted by linear arithmetic, a test of a pinned method result, or the failure of a callee that cannot fail on the domain (codec, AES-CBC and random-source failures are decided by C03/C05/C10 and assumed here)",
+		25, specs, []*ssa.Function{ee, enc, dd, dec})
+}
+
+// ---- EAP-AKA' AT_MAC (C15) ----
+
+func (c *Ctx) macTotality(r *Report, prefix string) {
+	calc := c.Method("eap", "EAP", "CalcEapAkaPrimeAtMAC")
+	specs := map[*ssa.Function]*domSpec{}
+	if calc != nil {
+		specs[calc] = &domSpec{ExactLenParam: -1,
+			NonNil:   map[string]bool{"eap": true, "eap.EapTypeData": true},
+			CallVals: map[string][]int64{"Type": {50}},
+			EnvErr:   map[string]string{"method:Marshal": "packets built through the API or decoded from well-formed input encode (decided by C14)"},
+		}
+	}
+	c.domainTotalRule(r, prefix+"total-on-domain",
+		"no failure exit of CalcEapAkaPrimeAtMAC (including initMAC -> SetAttr(AT_MAC, 16 zero octets) -> setAttr) is reachable for an EAP-AKA' packet of any identifier, subtype and attribute subset and any key: the only tests on the way are the method-type test (the packet is EAP-AKA'), the setter's size test for a 16-octet value, and callees that cannot fail",
+		4, specs, []*ssa.Function{calc})
+}
+
+// ---- EAP-AKA' attribute setter (C14) ----
+
+func (c *Ctx) setterTotality(r *Report, prefix string) {
+	sa := c.Method("eap", "EapAkaPrimeAttr", "setAttr")
+	type inst struct {
+		name   string
+		lo, hi int64
+	}
+	var roots []domRoot
+	for _, in := range []inst{{"AT_RAND", 16, 16}, {"AT_AUTN", 16, 16}, {"AT_MAC", 16, 16}, {"AT_KDF", 2, 2}, {"AT_RES", 4, 16},
+		{"AT_KDF_INPUT", 0, 300}, {"AT_CHECKCODE", 0, 0}, {"AT_CHECKCODE", 20, 20}, {"AT_CHECKCODE", 32, 32}} {
+		k := c.constInt("eap", in.name)
+		if k == nil || sa == nil {
+			roots = append(roots, domRoot{Label: in.name})
+			continue
+		}
+		roots = append(roots, domRoot{Fn: sa, Label: fmt.Sprintf("%s, %d..%d octets", in.name, in.lo, in.hi),
+			Spec: &domSpec{ExactLenParam: -1, NonNil: map[string]bool{"attr": true},
+				IntDom: map[string][2]int64{"attrType": {*k, *k}}, LenDom: map[string][2]int64{"value": {in.lo, in.hi}}}})
+	}
+	c.domainTotalRoots(r, prefix+"aka.setter-accepts-domain",
+		"the attribute setter accepts every value size of the domain: for AT_RAND/AT_AUTN/AT_MAC with 16 octets, AT_KDF with 2, AT_RES with 4..16, AT_KDF_INPUT with 0..300 and AT_CHECKCODE with 0, 20 or 32 octets no error exit of setAttr is reachable (the case dispatch and every size test are refuted by linear arithmetic over the attribute type and len(value))",
+		9, map[*ssa.Function]*domSpec{}, roots)
 }
